@@ -135,3 +135,33 @@ package vgirpc
 //@   at call ExternalStorage.Upload assert [declaredcoding] arg3 == contentEncoding && (contentEncoding == "" || contentEncoding == "zstd") && arg1 == ipcData
 //@   at call MakeExternalLocationBatch assert [pointer] arg1 == locationURL && len(arg2) == 1 && arg2[0] == sha256Hex
 //@   ensures [local_charged_ret7] result3 == nil && result2 == rawBytes
+
+// batchMetadata: a fetched batch is classified (log batch? pointer?) by its OWN metadata — the
+// message-level metadata the framework's writers put levels and locations on; the schema's
+// metadata is consulted only for a batch that has none of its own (repaired defect: it used to
+// look at the schema only, so nested pointers and log batches were returned as data).
+//
+//@ func batchMetadata
+//@   property C30
+//@   pathflag ownEmpty
+//@   at call (arrow.Metadata).Len setflag ownEmpty result <= 0
+//@   at call (*arrow.Schema).HasMetadata assert [ownfirst] !ok || ownEmpty
+//@   at call arrow.RecordBatchWithMetadata.Metadata#1 assert [itsown] arg0 == rb
+//
+// serveStream: when a pipe stream's data batch is externalized, what is written is the pointer
+// batch WITH the location and checksum metadata the upload returned (repaired defect: the
+// metadata was discarded and the client received a bare zero-row batch).
+//
+//@ func (*Server).serveStream
+//@   property C30
+//@   pathvar extM arrow.Metadata
+//@   at call maybeExternalizeBatchCtx setflag extM result1
+//@   at call array.NewRecordBatchWithMetadata after maybeExternalizeBatchCtx assert [pointerkeepsmeta] arg3 == extM && arg0 == schemaOf(extBatch)
+
+// (recorded finding) externalizeBatchCtx serializes the batch WITHOUT the custom metadata it was
+// given: the in-tree callers pass none, but the exported MaybeExternalizeBatch loses a caller's
+// metadata on the way through storage. The clause below is what would make the round trip keep it.
+//
+//@ func externalizeBatchCtx
+//@   property C30
+//@   at call serializeBatchAsIPC assert [carriesmeta] arg1 != nil && *arg1 == meta
